@@ -141,7 +141,7 @@ def handle (line : String) : String :=
       let f : Cli.Flags := { f2 := has '2', f3 := has '3', f4 := has '4', all := has 'a',
                              noColors := has 'n', json := has 'j', vector := vv }
       match Cli.mainMsg f ans with
-      | .lines ls => "lines\t" ++ "\\n".intercalate (ls.map esc)
+      | .lines ls => "lines\t" ++ "\t".intercalate (ls.map esc)   -- tab-separated: `esc` escapes tabs and newlines
       | .eof => "eof"
       | .crash => "crash"
     | _, _ => "bad-op"
